@@ -37,6 +37,7 @@ TRANSLATOR_SECTIONS = {
     "reader_writer": {"C01", "C02", "C09", "C10", "C11", "C14"},
     "dimacs_max": _PARSER_PROPS, "lit_max_code": _PARSER_PROPS, "dimacs_words": _PARSER_PROPS,
     "aiger_header": _PARSER_PROPS, "btor2_names": _PARSER_PROPS, "btor2_keywords": _PARSER_PROPS, "btor2_lowercase": _PARSER_PROPS,
+    "prealloc": {"C05"},
 }
 
 AXIOM_ALLOW = {
